@@ -16,7 +16,7 @@ RULE = ("generate: full product policies x vendor/class names x addresses x size
         "placement multisets reached; non-trivial = output compared or refusal compared with the reference")
 ASSUMPTIONS = ["svmc/refhex.py and svmc/refuuid.py are correct (self-tested)", "hashlib SHA-1/SHA-256"]
 BOUNDS = {"quick": "generate full product; generate histories depth<=2; merge histories depth<=2, 2^8 aligned subsets x 3 area addresses",
-          "thorough": "generate full product; generate histories depth<=3; merge histories depth<=3, 2^8 subsets each + every single faulty placement"}
+          "thorough": "generate full product; generate histories depth<=3; merge histories depth<=4 (one-directory histories depth<=4), mixed-size triples, 2^8 subsets each + every single faulty placement"}
 
 NAMES = ["nordicsemi.com", "", "a", "nRF54H20_sample_root", "zażółć.example", "xY" * 150, "MixedCase.Example"]
 ADDRS = [0, 0x10, 0xFFD0, 0x0E1FE000, 0x00FFFFF0, 2**32 - 48]
@@ -367,11 +367,11 @@ def run_cli(case, agg):
 def plan(tier):
     return [
         CaseStage("generate", lambda: gen_cases(tier), run_gen, disjoint=True, rule="policies x names x addresses x sizes"),
-        BfsStage("merge-histories", merge_init, merge_step, max_depth=2 if tier == "quick" else 3,
+        BfsStage("merge-histories", merge_init, merge_step, max_depth=2 if tier == "quick" else 4,
                  rule="placement histories over 23 placements x 3 area addresses"),
         BfsStage("generate-histories", genhist_init, genhist_step, max_depth=2 if tier == "quick" else 3,
                  rule="histories of generate calls (24 parameter tuples: 3 addresses x 2 sizes x 2 name pairs x 2 policies) on one output path"),
-        BfsStage("merge-histories-one-directory", mdir_init, mdir_step, max_depth=2 if tier == "quick" else 3,
+        BfsStage("merge-histories-one-directory", mdir_init, mdir_step, max_depth=2 if tier == "quick" else 4,
                  rule="histories of merges in one process and directory: 8 placement sets, input files regenerated under the same paths"),
         CaseStage("cli", lambda: cli_cases(tier), run_cli, rule="real CLI: 12 flag combinations x address/size syntax x names; merge with 0/1/3 --file"),
         CaseStage("merge-mixed-sizes", lambda: mixed_cases(tier), run_subset,
